@@ -22,21 +22,24 @@ theorem C27_cl_mismatch_closes (rq : Req) (ka : Bool) (script : List Act) (cl : 
     response that may carry a body: on HTTP/1.0 the body can only be delimited by closing and
     closeAfterReply is decided; on HTTP/1.1 chunking is decided. -/
 theorem C27_close_if_undelimited (i : HIn) (hh : i.rq.isHead = false) (h3 : i.status ≠ 304) (h2 : i.status ≠ 204)
+    (h1 : ¬ (100 ≤ i.status ∧ i.status ≤ 199))
     (hc : i.contentLength = none) (hd : i.handlerDone = false) :
     (i.rq.proto11 = false → (decideHeader i).close = true ∧ (decideHeader i).chunking = false) ∧
     (i.rq.proto11 = true → (decideHeader i).chunking = true) := by
   constructor
   · intro hp; simp [decideHeader, hh, h3, hc, hd, hp]
-  · intro hp; simp [decideHeader, hh, h3, h2, hc, hd, hp]
+  · intro hp; simp [decideHeader, hh, h3, h2, hc, hd, hp]; omega
 
-/-- chunking is only ever chosen for an HTTP/1.1 request, never for HEAD / 204 / 304. -/
+/-- chunking is only ever chosen for an HTTP/1.1 request, never for HEAD / 204 / 304 / 1xx. -/
 theorem C27_chunking_sound (i : HIn) (hc : (decideHeader i).chunking = true) :
-    i.rq.proto11 = true ∧ i.rq.isHead = false ∧ i.status ≠ 204 ∧ i.status ≠ 304 := by
+    i.rq.proto11 = true ∧ i.rq.isHead = false ∧ i.status ≠ 204 ∧ i.status ≠ 304 ∧
+    ¬ (100 ≤ i.status ∧ i.status ≤ 199) := by
   unfold decideHeader at hc
   simp only [] at hc
   simp only [Bool.and_eq_true, Bool.not_eq_true', Bool.or_eq_false_iff, bne_iff_ne, ne_eq,
-    beq_eq_false_iff_ne] at hc
-  exact ⟨hc.2, hc.1.1.1.1, hc.1.1.2, hc.1.1.1.2⟩
+    beq_eq_false_iff_ne, Bool.and_eq_false_iff, decide_eq_false_iff_not, decide_eq_true_eq] at hc
+  obtain ⟨⟨⟨⟨hh, h304⟩, ⟨h204, h1xx⟩⟩, _⟩, hp⟩ := hc
+  exact ⟨hp, hh, h204, h304, by omega⟩
 
 /-- **Histories.**  statusLine()'s process-wide Status-Line cache is transparent: in every history of
     exchanges (any mix of HTTP/1.0 and HTTP/1.1 requests and statuses, starting from an empty cache) each
@@ -126,10 +129,13 @@ theorem C27_witness_204 :
     ¬ NothingAfterHead (respond get11 true [.writeHeader 204, .write [97]]) ∧
     (respond get11 true [.writeHeader 204, .write [97]]).status = 204 := by decide
 
-/-- a 1xx status flushed by the handler is sent with chunked framing and a `0\r\n\r\n` body -/
+/-- after repair bb8afff a 1xx head carries no Transfer-Encoding and is never chunked — a flushed 1xx
+    is now followed by nothing — but a handler Write after WriteHeader(1xx) is still accepted
+    (bodyAllowed only excludes 304) and its bytes follow the 1xx head unframed -/
 theorem C27_witness_1xx :
-    ¬ NothingAfterHead (respond get11 true [.writeHeader 101, .flush]) ∧
-    (respond get11 true [.writeHeader 101, .flush]).chunking = true := by decide
+    ¬ NothingAfterHead (respond get11 true [.writeHeader 101, .write [97]]) ∧
+    (respond get11 true [.writeHeader 101, .write [97]]).chunking = false ∧
+    NothingAfterHead (respond get11 true [.writeHeader 101, .flush]) := by decide
 
 /-- the verdict of the SPEC oracle on the model's own bytes -/
 def verdictOf (rq : Req) (script : List Act) : String :=
@@ -141,7 +147,10 @@ def verdictOf (rq : Req) (script : List Act) : String :=
 set_option maxRecDepth 16000 in
 theorem C27_witness_204_bytes : verdictOf get11 [.writeHeader 204, .write [97]] = "FAIL:body-after-204" := by decide
 set_option maxRecDepth 16000 in
-theorem C27_witness_1xx_bytes : verdictOf get11 [.writeHeader 101, .flush] = "FAIL:body-after-1xx" := by decide
+theorem C27_witness_1xx_bytes : verdictOf get11 [.writeHeader 101, .write [97]] = "FAIL:body-after-1xx" := by decide
+set_option maxRecDepth 16000 in
+/-- the part repaired by bb8afff: a flushed 1xx (what the websocket upgrade sends) is now a clean head -/
+theorem C27_1xx_flushed_ok : verdictOf get11 [.writeHeader 101, .flush] = "ok" := by decide
 set_option maxRecDepth 16000 in
 /-- a handler-set `Transfer-Encoding: chunked` is emitted next to the server's own -/
 theorem C27_witness_te_twice :
